@@ -259,6 +259,36 @@ def out_of_lean(x):
     return [x if isinstance(x, str) else '?']
 
 
+def run_one(mod, fn, a):
+    """fn(*a) with fresh mutable arguments; returns (kind, value, final state of the mutable arguments).
+    A function of six parameters also gets an object `o` (attributes v, w, flag) and a dict `d` (keys k, j, last) built
+    from the input; their final state is what the caller sees."""
+    l = list(a[3])
+    args = [a[0], a[1], a[2], l]
+    o = d = None
+    if mod.f.__code__.co_argcount == 6:
+        o = mod.Obj(a[0], a[1])
+        d = {'k': a[1], 'j': a[2], 'last': 0}
+        args += [o, d]
+    mod.LOG[:] = []
+    mod.DEC[:] = []
+    mod.G = 0
+    try:
+        r = fn(*args)
+        out = ('ret', mod._freeze(r))
+    except RecursionError:
+        raise
+    except Exception as e:  # noqa
+        out = ('exc', 'NameError' if isinstance(e, NameError) else type(e).__name__)
+    state = [('l', mod._freeze(l))]
+    if o is not None:
+        state += [('o.' + k, mod._freeze(v)) for k, v in sorted(vars(o).items())]
+        state += [('d[%r]' % (k,), mod._freeze(v)) for k, v in sorted(d.items())]
+    if mod.LOG:
+        state.append(('LOG', len(mod.LOG)))
+    return out + (tuple(state),)
+
+
 def explore(ws, prog):
     """Convert `prog` natively (recording passes) and with the tracing backend; run everything on all inputs."""
     c = Case()
@@ -294,10 +324,10 @@ def explore(ws, prog):
     c.counters = {'ifs': 0, 'whiles': 0, 'fors': 0, 'zero_trip': 0}
     if c.conv_error is None:
         for a in prog.inputs:
-            r0 = progen.run_program(mod, mod.f, a)[0]
-            r1 = progen.run_program(mod, c.trace.converted, a)[0]
+            r0 = run_one(mod, mod.f, a)
+            r1 = run_one(mod, c.trace.converted, a)
             B.COUNTERS.reset()
-            r2 = progen.run_program(mod, tracing, a)[0]
+            r2 = run_one(mod, tracing, a)
             for k in c.counters:
                 c.counters[k] += getattr(B.COUNTERS, k)
             c.results.append((a, r0, r1, r2))
@@ -456,7 +486,7 @@ def check(run, only=None):
             if r0 != r2:
                 for k in cl:
                     classes_seen[k] = classes_seen.get(k, 0) + 1
-                run.fail('tracing-backend result differs from the original',
+                run.fail('tracing-backend result / final state of the mutable arguments differs from the original',
                          {'source': r['fsrc'], 'input': list(a), 'inputs': r['inputs'], 'original': repr(r0),
                           'tracing_backend': repr(r2), 'default_operators': repr(r1), 'stream': r['stream'], 'classes': cl},
                          cl[0] if cl else None)
